@@ -554,6 +554,7 @@ def main(argv=None):
     ap.add_argument("--dev", action="store_true", help="development only: build just the driver and this property's modules")
     a = ap.parse_args(argv)
     seed = int(os.environ.get("VERIF_SEED", "0") or 0)
+    _install_watchdog(a.prop, a.tier)
     try:
         mod = load_module(a.prop)
         ctx = Ctx(mod, a.tier, seed)
@@ -592,6 +593,46 @@ def main(argv=None):
     except Exception:
         traceback.print_exc()
         return 2
+
+
+def _install_watchdog(prop, tier):
+    """Global guard: a check must terminate on any tree. If the whole run exceeds a very generous limit
+    (a real-code call that never returns under a changed strax, a dead worker pool) the process group is
+    killed and the check exits 2 (machinery error / timeout), never hanging its caller."""
+    import signal
+    limit = int(os.environ.get("VERIF_MAX_SECONDS", "0") or 0) or (3600 if tier == "quick" else 6 * 3600)
+    def descendants(root):
+        kids = {}
+        for d in os.listdir("/proc"):
+            if d.isdigit():
+                try:
+                    with open(f"/proc/{d}/stat") as f:
+                        parts = f.read().rsplit(")", 1)[1].split()
+                    kids.setdefault(int(parts[1]), []).append(int(d))
+                except (OSError, IndexError, ValueError):
+                    pass
+        out, todo = [], [root]
+        while todo:
+            for k in kids.get(todo.pop(), []):
+                out.append(k)
+                todo.append(k)
+        return out
+
+    def on_alarm():
+        sys.stdout.flush()
+        print(f"[{prop}] watchdog: the check did not finish within {limit} s; giving up with exit 2", file=sys.stderr, flush=True)
+        for pid in descendants(os.getpid()):
+            try:
+                os.kill(pid, signal.SIGKILL)
+            except OSError:
+                pass
+        os._exit(2)
+
+    # a timer thread, not SIGALRM: property modules may use alarm() for their own per-case watchdogs
+    import threading
+    t = threading.Timer(limit, on_alarm)
+    t.daemon = True
+    t.start()
 
 
 def leanchecker(ctx):
